@@ -27,6 +27,26 @@ def sh(cmd, cwd=None, timeout=1800, env=ENV):
     return p.returncode, p.stdout.decode("utf-8", "replace")
 
 
+BY_PACKAGE = [
+    (("midix/", "play/"), "C01 C02 C06 C07 C08 C10 C12 C16 C17"),
+    (("input/", "astconv/"), "C03 C04 C05 C09 C10 C11 C12 C17"),
+    (("cmd/io.go", "cmd/root.go", "cmd/flag.go", "cmd/main.go", "util/"), "C04 C09 C10 C12 C15 C16"),
+    (("cmd/write.go", "cmd/text.go"), "C01 C07 C09 C10 C12"),
+    (("note/", "op/", "chord/", "desc/", "cmd/info.go", "cmd/gen.go"), "C01 C03 C05 C07 C13 C14 C15 C16 C17"),
+]
+
+
+def touched_checks(diff):
+    out = set()
+    for line in open(diff, errors="replace"):
+        if line.startswith("+++ ") and "/" in line:
+            path = line[4:].split()[0].split("/", 1)[1]          # without the first component (b/, repoA/, ...)
+            for prefixes, checks in BY_PACKAGE:
+                if path.startswith(prefixes):
+                    out |= set(checks.split())
+    return out
+
+
 def main():
     args = sys.argv[1:]
     root, prefix = "/tmp/refac/out", ""
@@ -37,6 +57,9 @@ def main():
     only, notests = None, False
     if "--only" in args:            # comma list of checks to run (default: all 17)
         i = args.index("--only"); only = args[i + 1].split(","); del args[i:i + 2]
+    auto = False
+    if "--auto" in args:            # the checks that look at the packages a patch touches (union with --only)
+        args.remove("--auto"); auto = True
     if "--notests" in args:         # property-preserving changes may move what /repo's unit tests pin: run the checks anyway
         args.remove("--notests"); notests = True
     sys.argv[1:] = args
@@ -66,7 +89,10 @@ def main():
             res["checks"] = {}
             if res["applies"] and res["compiles_with_tag"] and (res["tests_pass"] or notests):
                 env = dict(ENV, VERIF_REPO=wt, VERIF_EVIDENCE_DIR=evd, VERIF_REPLAY_DIR=evd)
-                for c in (only or ALL):
+                todo = only or ALL
+                if auto:
+                    todo = sorted(set(only or []) | touched_checks(diff))
+                for c in todo:
                     rc, out = sh(["./check", c, "quick"], cwd=os.environ.get("VERIF_HOME", "/verif"), env=env, timeout=3600)
                     lines = [l[:500] for l in out.splitlines() if l.startswith(("VIOLATION", "UNDECIDED", "MECHANISM-DRIFT", "violated:"))]
                     res["checks"][c] = {"rc": rc, "lines": lines[:6]}
